@@ -197,10 +197,12 @@ def count_axioms(st: State, quantified: bool = False, max_conds: int = 16, meta:
         g0 = z3.Int(fresh_name("ga"))
         conds = [z3.substitute(r.cond, (r.g, g0)) for r in recs]
         if len(conds) > max_conds:
+            if meta is not None:
+                meta.append(("skipped", key, None))
             continue
         bs = [z3.Bool(fresh_name("atom")) for _ in conds]
         s = z3.Solver()
-        s.set("timeout", 3000)
+        s.set("timeout", 20000)  # generous: a skipped group leaves its counts unconstrained (verdicts must not flip under load)
         for p in st.pc:
             if not _has_quantifier(p):
                 s.add(p)
@@ -223,6 +225,8 @@ def count_axioms(st: State, quantified: bool = False, max_conds: int = 16, meta:
                 atoms = None
                 break
         if atoms is None:
+            if meta is not None:
+                meta.append(("skipped", key, None))
             continue
         ns = [fresh_int("n_atom") for _ in atoms]
         out.append(z3.Sum(ns) == z3.If(hi > 0, hi, 0) if ns else (z3.If(hi > 0, hi, 0) == 0))
@@ -253,33 +257,33 @@ def count_axioms(st: State, quantified: bool = False, max_conds: int = 16, meta:
 
 
 def _small_range_facts(meta, bound: int = 5) -> list:
-    """Restriction to ranges of at most `bound` elements, with the emptiness facts instantiated at every index of such a
-    range (complete for it): any model of the restricted query is a model of the full one."""
+    """Restriction to ranges of at most `bound` elements, with every region's cardinality spelled out over the indices of
+    such a range (complete for it): any model of the restricted query is a model of the full one."""
+    meta = [m for m in meta if not isinstance(m[0], str)]
     out = [hi <= bound for hi in {h.get_id(): h for _n, _a, h in meta}.values()]
     for n, atom, hi in meta:
-        for j in range(bound):
-            out.append(z3.Implies(z3.And(n == 0, j < hi), z3.Not(atom(z3.IntVal(j)))))
+        out.append(n == z3.Sum([z3.If(z3.And(j < hi, atom(z3.IntVal(j))), 1, 0) for j in range(bound)] + [z3.IntVal(0)]))
     return out
 
 
 def _model_respects_counts(model, meta, limit: int = 300):
-    """True: every region the model makes empty (n = 0) really holds no index of the model's range; False: some index
-    falls in it (the model is spurious); None: not checkable (range too large / not a number)."""
+    """True: in the model every region's cardinality n is exactly the number of indices of the model's range that fall in
+    the region; False: it is not (the model is spurious); None: not checkable (range too large / not a number)."""
     if model is None:
         return None
+    if any(isinstance(m[0], str) for m in meta):
+        return None  # some count group has no axioms at all (too many conditions / enumeration gave up)
     for n, atom, hi in meta:
         try:
             nv = model.eval(n, model_completion=True).as_long()
             hv = model.eval(hi, model_completion=True).as_long()
         except Exception:
             return None
-        if nv != 0:
-            continue
         if hv > limit:
             return None
-        for j in range(max(hv, 0)):
-            if z3.is_true(model.eval(atom(z3.IntVal(j)), model_completion=True)):
-                return False
+        real = sum(1 for j in range(max(hv, 0)) if z3.is_true(model.eval(atom(z3.IntVal(j)), model_completion=True)))
+        if real != nv:
+            return False
     return True
 
 
@@ -531,7 +535,7 @@ def _discharge(name: str, st: State, goal, timeout_ms: int, pi: int) -> OblResul
     if z3.is_true(goal_s):
         return OblResult(name, "discharged", "simplify", 0.0, path=pi)
     hyps = list(st.pc) + string_facts(st)
-    key = (len(st.counts), len(st.pc))
+    key = (tuple(c.term.get_id() for c in st.counts), len(st.pc))  # (the spec's own count terms come and go per obligation)
     cached = getattr(st, "_ax_cache", None)
     if cached is not None and cached[0] == key:
         ax, meta = cached[1], cached[2]
@@ -563,6 +567,8 @@ def _discharge(name: str, st: State, goal, timeout_ms: int, pi: int) -> OblResul
             status2, backend2, model2, detail2 = smt.prove(hyps + ax2, goal, timeout_ms)
             if status2 != "failed":
                 status, backend, model, detail = status2, backend2 + "+q", model2, detail2
+            elif any(isinstance(m[0], str) for m in meta):
+                status, detail = "undecided", "counter-model not trusted: a group of count terms has no axioms (too many conditions or enumeration timed out)"
     return OblResult(name, status, backend, time.time() - t0, detail, model, pi)
 
 
@@ -584,7 +590,10 @@ def _after_failure(unit: Unit, ob: Obl, ctx: Ctx, st: State, goal, r: OblResult,
         if goal is None or "residual" not in kf:
             continue
         try:
-            res = ctx.ev(kf["residual"])
+            # the known class is a spec expression; obligations over a generic loop element bind its names per goal
+            # (ctx.extra["residual_env"][<goal suffix>])
+            renv = next((v for k_, v in ctx.extra.get("residual_env", {}).items() if base.endswith("/" + k_)), None)
+            res = ctx.ev(kf["residual"], renv)
         except (Unsupported, PyRaise, KeyError, SyntaxError):
             continue
         status, backend, model, detail = smt.prove(list(st.pc) + count_axioms(st), z3.Or(goal, res), timeout_ms)
